@@ -515,6 +515,7 @@ type Contract struct {
 	Frees    []string
 	Opaque   map[string]bool // callees to treat as opaque even if contracted
 	Inline   bool
+	AssumeAfter map[string][]*Clause // label -> assumptions made right after a watched call returns (listed)
 	Stable   []string // locations assumed not to be written by opaque callees (listed assumption)
 }
 
@@ -664,6 +665,21 @@ func (cs *ContractSet) LoadContractFile(path, pkgPath string, assumed bool) erro
 			cur.Mode = rest
 		case "opaque":
 			cur.Opaque[rest] = true
+		case "assume":
+			// assume after <Label> <expr>
+			kw, r2 := splitWord(rest)
+			if kw != "after" {
+				return fail(fmt.Errorf("expected: assume after <label> <expr>"))
+			}
+			lab, r3 := splitWord(r2)
+			c, err := mk("assume", r3)
+			if err != nil {
+				return err
+			}
+			if cur.AssumeAfter == nil {
+				cur.AssumeAfter = map[string][]*Clause{}
+			}
+			cur.AssumeAfter[lab] = append(cur.AssumeAfter[lab], c)
 		case "stable":
 			for _, a := range splitTop(rest, ',') {
 				if a = strings.TrimSpace(a); a != "" {
